@@ -22,7 +22,7 @@ ASSUMPTIONS = [
     "DoubleSine parameters rho1, rho2 in [0.05, 1] (smaller values make the exponents overflow, as the property states)",
     "Rastrigin accepts any dimension >= 1, so it has no wrong-dimension case",
 ]
-FLOOR = {"samples_checked": {"quick": 1000000, "thorough": 30000000},
+FLOOR = {"samples_checked": {"quick": 1000000, "thorough": 150000000},
          "maximisers_checked": {"quick": 100, "thorough": 200},
          "purity_checks": {"quick": 60, "thorough": 120},
          "wrong_dimension_checks": {"quick": 100, "thorough": 200}}
@@ -79,7 +79,7 @@ def special_values(lo, hi, anchors):
 
 
 def gen_cases(rng, tier, count=None):
-    per = 30000 if tier == "quick" else 300000
+    per = 30000 if tier == "quick" else 2000000
     reps = 10 if tier == "quick" else 20
     out = []
     for name in OBJS:
